@@ -1,0 +1,123 @@
+//go:build verif
+
+// Verification hook (build tag 'verif' only): lets a diam.SCTPConn run over
+// an in-memory backend instead of a kernel SCTP socket. Nothing here is
+// compiled without the tag. The methods below shadow the methods promoted
+// from the embedded *sctp.SCTPConn; a connection that was not created by
+// NewVerifSCTPConn is forwarded to the embedded socket unchanged.
+
+package diam
+
+import (
+	"net"
+	"sync"
+	"time"
+
+	"github.com/ishidawataru/sctp"
+)
+
+// VerifSCTPBackend is the transport behind a verification SCTPConn.
+type VerifSCTPBackend interface {
+	// SCTPRead delivers the next (part of a) data chunk: up to len(b) bytes
+	// of a single stream. hasInfo=false models a socket without
+	// SCTP_EVENT_DATA_IO (no sndrcvinfo).
+	SCTPRead(b []byte) (n int, stream uint16, hasInfo bool, err error)
+	// SCTPWrite receives one write with the stream and PPID chosen by the library.
+	SCTPWrite(b []byte, stream uint16, ppid uint32) (int, error)
+	Close() error
+	LocalAddr() net.Addr
+	RemoteAddr() net.Addr
+}
+
+var verifSCTPBackends sync.Map // *SCTPConn -> VerifSCTPBackend
+
+// NewVerifSCTPConn returns a MultistreamConn whose socket is the backend.
+func NewVerifSCTPConn(b VerifSCTPBackend) MultistreamConn {
+	c := &SCTPConn{s: &streams{}, currStream: InvalidStreamID, writerStream: InvalidStreamID}
+	verifSCTPBackends.Store(c, b)
+	return c
+}
+
+func (msc *SCTPConn) verifBackend() VerifSCTPBackend {
+	if v, ok := verifSCTPBackends.Load(msc); ok {
+		return v.(VerifSCTPBackend)
+	}
+	return nil
+}
+
+func (msc *SCTPConn) SCTPRead(b []byte) (int, *sctp.SndRcvInfo, error) {
+	be := msc.verifBackend()
+	if be == nil {
+		return msc.SCTPConn.SCTPRead(b)
+	}
+	n, stream, hasInfo, err := be.SCTPRead(b)
+	if !hasInfo {
+		return n, nil, err
+	}
+	return n, &sctp.SndRcvInfo{Stream: stream, PPID: DiameterPPID}, err
+}
+
+func (msc *SCTPConn) SCTPWrite(b []byte, info *sctp.SndRcvInfo) (int, error) {
+	be := msc.verifBackend()
+	if be == nil {
+		return msc.SCTPConn.SCTPWrite(b, info)
+	}
+	var stream uint16
+	var ppid uint32
+	if info != nil {
+		stream, ppid = info.Stream, info.PPID
+	}
+	return be.SCTPWrite(b, stream, ppid)
+}
+
+func (msc *SCTPConn) Close() error {
+	be := msc.verifBackend()
+	if be == nil {
+		return msc.SCTPConn.Close()
+	}
+	return be.Close()
+}
+
+func (msc *SCTPConn) LocalAddr() net.Addr {
+	be := msc.verifBackend()
+	if be == nil {
+		return msc.SCTPConn.LocalAddr()
+	}
+	return be.LocalAddr()
+}
+
+func (msc *SCTPConn) RemoteAddr() net.Addr {
+	be := msc.verifBackend()
+	if be == nil {
+		return msc.SCTPConn.RemoteAddr()
+	}
+	return be.RemoteAddr()
+}
+
+func (msc *SCTPConn) SetDeadline(t time.Time) error {
+	if msc.verifBackend() == nil {
+		return msc.SCTPConn.SetDeadline(t)
+	}
+	return nil
+}
+
+func (msc *SCTPConn) SetReadDeadline(t time.Time) error {
+	if msc.verifBackend() == nil {
+		return msc.SCTPConn.SetReadDeadline(t)
+	}
+	return nil
+}
+
+func (msc *SCTPConn) SetWriteDeadline(t time.Time) error {
+	if msc.verifBackend() == nil {
+		return msc.SCTPConn.SetWriteDeadline(t)
+	}
+	return nil
+}
+
+// VerifReleaseSCTPConn forgets the backend of a finished connection.
+func VerifReleaseSCTPConn(c MultistreamConn) {
+	if msc, ok := c.(*SCTPConn); ok {
+		verifSCTPBackends.Delete(msc)
+	}
+}
